@@ -4,4 +4,5 @@ CONSTANTS
   SciLen = 3
 INVARIANT InvTolerance
 INVARIANT InvReturns
+INVARIANT InvRepFree
 CHECK_DEADLOCK FALSE
